@@ -5,10 +5,11 @@ C15 — formatting never changes the program and is idempotent.
 
 The statement has four clauses: (1) tokens(format s) = tokens s (comments, pragmas, strings included),
 (2) format (format s) = format s, (3) range / on-type edits only re-lay-out the lines they cover,
-(4) the same for the web IDE formatter.  The code violates every clause somewhere; each theorem below
-says exactly what is proved of the code as it is (`_partial` = under an explicit decidable guard) and
-each `_counterexample` exhibits a concrete input on which the model — and, replayed by the harness, the
-real implementation — violates the full clause.
+(4) the same for the web IDE formatter.  After the fixes 0cc0118, 2b1ad0b, 997b5b5, b483235, 26b5189, 944815f,
+6232ed3 the model follows the repaired code, and the theorems that were `_partial` with a counterexample
+are stated in full: `c15_line_tokens` (re-lex guard), `c15_no_panic`, `c15_range_line_count`,
+`c15_colon_guard`, `c15_web_idempotent`.  What the code still violates keeps its proved counterexample
+(`c15_wrap_idempotent_counterexample`, `c15_web_comment_counterexample`) and an open known finding.
 -/
 namespace TrustVerif.C15
 open TrustVerif.C15.Gen
@@ -22,10 +23,11 @@ theorem c15_glue_table :
         knownHazard a b st = true := by
   decide +kernel
 
-/-- Clause 1 (glue), partial: whenever `should_glue` writes two tokens without a separator, the pair is
-class-safe (re-lexes as the same two tokens), unless it is one of the recorded hazards
-(`hazardsAlways`, `hazardsCompact`; known finding C15-glue-hazards). -/
-theorem c15_glue_safe_partial (a b : Cls) (st : Style)
+/-- Clause 1 (glue): whenever `should_glue` writes two tokens without a separator, the pair is class-safe
+(re-lexes as the same two tokens), unless it is one of the 34 recorded pairs (`hazardsAlways`,
+`hazardsCompact`) — on those the re-lex guard of `format_line_tokens` takes the one-space fallback
+(`c15_line_tokens`). -/
+theorem c15_glue_safe (a b : Cls) (st : Style)
     (ha : excludedKind a.kind = false) (hb : excludedKind b.kind = false)
     (hg : shouldGlue a.kind b.kind st = true) (hk : knownHazard a b st = false) :
     classSafe a b = true := by
@@ -38,51 +40,56 @@ theorem c15_glue_safe_partial (a b : Cls) (st : Style)
     rw [hk] at this
     exact absurd this (by simp)
 
-/-- non-vacuity of `c15_glue_safe_partial`: `foo(` -/
+/-- non-vacuity of `c15_glue_safe`: `foo(` -/
 example : classSafe (.k .Ident) (.k .LParen) = true :=
-  c15_glue_safe_partial (.k .Ident) (.k .LParen) .spaced (by decide) (by decide) (by decide) (by decide)
+  c15_glue_safe (.k .Ident) (.k .LParen) .spaced (by decide) (by decide) (by decide) (by decide)
 
-/-- Clause 1 is FALSE of the code: `( *` is written `(*`, the start of a block comment. -/
-theorem c15_glue_counterexample_comment :
-    shouldGlue .LParen .Star .spaced = true ∧ classSafe (.k .LParen) (.k .Star) = false := by decide
-
-/-- Clause 1 is false on VALID programs: a typed literal after a keyword (`x MOD INT#5`) is glued to the
-keyword (`MODINT#5`), in both spacing styles. -/
-theorem c15_glue_counterexample_typed_literal :
-    ∀ st, shouldGlue .Kw .TypedLiteralPrefix st = true ∧ classSafe (.k .Kw) (.k .TypedLiteralPrefix) = false := by
-  intro st; cases st <;> decide
-
-/-- Compact style: `/ /` becomes `//` (a line comment), `: =` becomes `:=`. -/
-theorem c15_glue_counterexample_compact :
-    gluedUnsafe (.k .Slash) (.k .Slash) .compact = true ∧ gluedUnsafe (.k .Colon) (.k .Eq) .compact = true := by
-  decide
-
-/-- The unguarded statement fails. -/
-theorem c15_glue_safe_counterexample :
-    ¬ ∀ (a b : Cls) (st : Style), excludedKind a.kind = false → excludedKind b.kind = false →
-        shouldGlue a.kind b.kind st = true → classSafe a b = true := by
-  intro h
-  have := h (.k .LParen) (.k .Star) .spaced (by decide) (by decide) (by decide)
-  exact absurd this (by decide)
+/-- The re-lex guard is needed: the glue rule alone would write `( *` as `(*` (a comment opener), and in
+compact style `/ /` as `//` and `: =` as `:=`. -/
+theorem c15_relex_guard_needed :
+    gluedUnsafe (.k .LParen) (.k .Star) .spaced = true ∧ gluedUnsafe (.k .Slash) (.k .Slash) .compact = true ∧
+    gluedUnsafe (.k .Colon) (.k .Eq) .compact = true := by decide
 
 /-! ## Clause 1, one line re-emitted by `format_line_tokens` -/
 
-/-- Clause 1 for one code line (no comment, no pragma): the text `format_line_tokens` emits lexes to the
-tokens it was made from, keywords re-cased as configured and nothing else changed — for EVERY token list
-without a recorded glue hazard, every spacing style and every keyword case.  Relative to the abstract
-lexer interface `L` (validated against `trust_syntax::lex` on every run). -/
-theorem c15_line_tokens (L : LexIface) (ts : List Tok) (kc : KwCase) (st : Style)
+/-- The glued text of a token list without a recorded pair lexes to its tokens: on such lines the re-lex
+guard answers `true` and the glued text is what `format_line_tokens` returns. -/
+theorem c15_glued_line_relexes (L : LexIface) (ts : List Tok) (kc : KwCase) (st : Style)
     (hv : ∀ t ∈ ts, L.valid t) (hh : lineHazards st ts = []) :
-    L.lex (formatLineTokens ts kc st) = ts.map (recaseTok kc) := by
+    L.lex (gluedLine ts kc st) = ts.map (recaseTok kc) := by
   have h := formatLineTokensFrom_eq_render kc st none ts
   simp only [Option.map_none] at h
-  unfold formatLineTokens
+  unfold gluedLine
   rw [h]
   apply L.locality
   · intro t ht
     obtain ⟨u, hu, rfl⟩ := List.mem_map.mp ht
     exact L.valid_recase kc u (hv u hu)
   · exact adjAll_of_no_hazards L kc st ts hv hh
+
+/-- Clause 1 for one code line (no comment, no pragma), in FULL: the text `format_line_tokens` returns
+lexes to exactly the tokens it was made from (keywords re-cased as configured, `c15_recase`) — for EVERY
+list of valid tokens, every spacing style and keyword case.  `relexOk` is the verdict of `relexes_to` on the
+glued text, i.e. what the lexer says; when it is negative the one-space fallback is returned, which lexes
+to its tokens by locality.  Relative to the abstract lexer interface `L`. -/
+theorem c15_line_tokens (L : LexIface) (ts : List Tok) (kc : KwCase) (st : Style) (relexOk : Bool)
+    (hv : ∀ t ∈ ts, L.valid t)
+    (hr : relexOk = decide (L.lex (gluedLine ts kc st) = ts.map (recaseTok kc))) :
+    L.lex (formatLineTokens ts kc st relexOk) = ts.map (recaseTok kc) := by
+  unfold formatLineTokens
+  cases hb : relexOk with
+  | true =>
+    rw [hb] at hr
+    simp only [if_true]
+    exact of_decide_eq_true hr.symm
+  | false =>
+    simp only [Bool.false_eq_true, if_false]
+    rw [spacedLine_eq_render]
+    apply L.locality
+    · intro t ht
+      obtain ⟨u, hu, rfl⟩ := List.mem_map.mp ht
+      exact L.valid_recase kc u (hv u hu)
+    · exact adjAll_never_glued _ _
 
 /-- non-vacuity of the token hypotheses of `c15_line_tokens`: `x:=1 ;` has no glue hazard in either style and is
 re-emitted as `x := 1;` / `x:=1;` (the interface `L` itself is an assumption about the real lexer, validated
@@ -91,7 +98,9 @@ example :
     let ts := [tk "Ident" .Ident "x", tk "Assign" .Assign ":=", tk "IntLiteral" .IntLiteral "1",
                tk "Semicolon" .Semicolon ";"]
     lineHazards .spaced ts = [] ∧ lineHazards .compact ts = [] ∧
-    formatLineTokens ts .preserve .spaced = txt "x := 1;" ∧ formatLineTokens ts .preserve .compact = txt "x:=1;" := by
+    formatLineTokens ts .preserve .spaced true = txt "x := 1;" ∧
+    formatLineTokens ts .preserve .compact true = txt "x:=1;" ∧
+    formatLineTokens ts .preserve .compact false = txt "x := 1 ;" := by
   decide
 
 example : LexIface :=
@@ -224,22 +233,17 @@ theorem c15_web_nonws (s : Text) : nonWs (webFormat s) = nonWs s := by
     have : nonWs ['\n'] = [] := by decide
     simp [this]
 
-/-- Idempotence of the web formatter, partial: for every text in which no kept line ends in a
-carriage return (`noStrayCR`, i.e. no `CR CR LF` and no final line ending in CR). -/
-theorem c15_web_idempotent_partial (s : Text) (h : noStrayCR s = true) :
-    webFormat (webFormat s) = webFormat s := by
+/-- Idempotence of the web formatter, in FULL (since fix 6232ed3 a trailing CR is trimmed with the other
+trailing blanks): `format (format s) = format s` for every text. -/
+theorem c15_web_idempotent (s : Text) : webFormat (webFormat s) = webFormat s := by
   have hs := webFormat_eq s
   by_cases hf : joinWith ['\n'] (webLines 0 (rustLines s)) = []
   · rw [hs]; simp only [hf, if_true]; decide
   · have hne : webLines 0 (rustLines s) ≠ [] := by
       intro e; apply hf; rw [e]; rfl
     have hnonl := webLines_no_nl 0 (rustLines s) (rustLines_no_nl s)
-    have hcr : ∀ o ∈ webLines 0 (rustLines s), o.getLast? ≠ some '\r' := by
-      apply webLines_last_ne_cr
-      intro r hr
-      unfold noStrayCR at h
-      have := List.all_eq_true.mp h r hr
-      simpa using this
+    have hcr : ∀ o ∈ webLines 0 (rustLines s), o.getLast? ≠ some '\r' :=
+      webLines_last_ne_cr 0 _ (fun r _ => webCore_last_ne_cr r)
     have hlines : ∀ outs : List Text, outs ≠ [] → (∀ o ∈ outs, '\n' ∉ o) →
         (∀ o ∈ outs, o.getLast? ≠ some '\r') → rustLines (joinWith ['\n'] outs ++ ['\n']) = outs := by
       intro outs hne hnonl hcr
@@ -255,31 +259,35 @@ theorem c15_web_idempotent_partial (s : Text) (h : noStrayCR s = true) :
     rw [webFormat_eq, hlines, webLines_idem]
     simp [hf]
 
-/-- non-vacuity: an indented program satisfies the guard and is changed by the formatter -/
-example : noStrayCR (txt "IF a THEN\r\nx;\nEND_IF") = true ∧
+/-- the former counterexample (`CR CR LF`) and a CRLF program, now fixed points after one run -/
+example : webFormat (txt "a\r\r\n") = txt "a\n" ∧
     webFormat (txt "IF a THEN\r\nx;\nEND_IF") = txt "IF a THEN\n  x;\nEND_IF\n" := by decide
 
-/-- Idempotence of the web formatter is FALSE in general: `"a\r\r\n"` (known finding C15-web-stray-cr). -/
-theorem c15_web_idempotent_counterexample :
-    webFormat (webFormat (txt "a\r\r\n")) ≠ webFormat (txt "a\r\r\n") := by decide
+/-- The alarm guard `noStrayCR` of the check can never fire on the repaired code. -/
+theorem c15_web_no_stray_cr (s : Text) : noStrayCR s = true := by
+  unfold noStrayCR
+  rw [List.all_eq_true]
+  intro raw _
+  have := webCore_last_ne_cr raw
+  simpa using this
 
 /-- Clause 4 ("same comments") is FALSE of the web formatter: the interior lines of a multi-line block
 comment are trimmed and re-indented (known finding C15-web-multiline-trivia). -/
 theorem c15_web_comment_counterexample :
     webFormat (txt "(* a\n     b *)\n") = txt "(* a\nb *)\n" := by decide
 
-/-! ## Robustness: the per-line loop never panics in the aligned style, and does in the indented style -/
+/-! ## Robustness: the per-line loop never panics (fix 2b1ad0b clamps the indent level at zero) -/
 
-/-- With `endKeywordStyle = aligned` (the default) `format_document` never reaches the negative
-`current_indent` that makes `indent_unit.repeat(current_indent as usize)` panic: for every list of
-lines, from every state with a non-negative indent. -/
-theorem c15_no_panic_aligned (cfg : Config) (hc : cfg.endStyle = .aligned) (ls : List LineIn) (st : St)
-    (hi : 0 ≤ st.indent) : (runLines cfg st ls).isSome = true := by
+/-- For EVERY configuration `format_document` never reaches the negative `current_indent` that makes
+`indent_unit.repeat(current_indent as usize)` panic: for every list of lines, from every state with a
+non-negative indent (the initial state has indent 0). -/
+theorem c15_no_panic (cfg : Config) (ls : List LineIn) (st : St) (hi : 0 ≤ st.indent) :
+    (runLines cfg st ls).isSome = true := by
   induction ls generalizing st with
   | nil => simp [runLines]
   | cons l rest ih =>
     unfold runLines
-    have hci := curIndent_aligned_nonneg cfg st.indent l.toks hc hi
+    have hci := curIndent_nonneg cfg st.indent l.toks hi
     unfold stepLine
     by_cases hb : l.inBlockComment = true
     · simp only [hb, if_true]
@@ -298,11 +306,7 @@ theorem c15_no_panic_aligned (cfg : Config) (hc : cfg.endStyle = .aligned) (ls :
         generalize curIndent cfg st.indent l.toks = ci at hci
         have hneg : ¬ ci.1 < 0 := by omega
         simp only [hneg, if_false]
-        have hnext : 0 ≤ nextIndent ci.1 ci.2 l.toks := by
-          unfold nextIndent
-          rw [hci.2]
-          simp only [Bool.false_eq_true, if_false]
-          split <;> omega
+        have hnext : 0 ≤ nextIndent ci.1 ci.2 l.toks := nextIndent_nonneg _ _ _ hci
         generalize hst2 : ({ indent := nextIndent ci.1 ci.2 l.toks, inVar := nextInVar st.inVar l.toks } : St) = st2
         have hi2 : 0 ≤ st2.indent := by rw [← hst2]; exact hnext
         have := ih st2 hi2
@@ -310,59 +314,26 @@ theorem c15_no_panic_aligned (cfg : Config) (hc : cfg.endStyle = .aligned) (ls :
         | none => rw [hr] at this; simp at this
         | some os => simp
 
-/-- non-vacuity -/
-example : (runLines cfgDefault {} [lineOf "END_IF" [tk "KwEndIf" .Kw "END_IF"], lineOf "x" [tk "Ident" .Ident "x"]]).isSome
-    = true :=
-  c15_no_panic_aligned _ rfl _ {} (by decide)
-
-/-- "For every configuration … the formatted text …" is FALSE: with `endKeywordStyle = indented` an `END_`
-keyword at indent level 0 drives `indent_level` to -1 and the next code line panics
-(`END_IF` / `x`; in valid programs: `END_PROGRAM` after `REPEAT … UNTIL … END_REPEAT`, followed by another
-POU).  Known finding C15-indent-underflow-panic; replayed: the LSP server process exits. -/
-theorem c15_panic_counterexample :
+/-- the former panic witness (`END_IF` / `x` with `endKeywordStyle = indented`) is formatted now -/
+example :
     formatDocument { cfgDefault with endStyle := .indented }
       { lines := [lineOf "END_IF" [tk "KwEndIf" .Kw "END_IF"], lineOf "x" [tk "Ident" .Ident "x"]],
-        crlf := false, endsNl := false } = none := by decide
+        crlf := false, endsNl := false } = some (txt "END_IF\nx") := by decide
 
-/-! ## Clause 1: tokens that span several lines are not handled by the line loop -/
+/-! ## Clause 1: the colon alignment only uses a colon that is a token (fix b483235) -/
 
-/-- A non-blank line that carries no token start and no mask (the interior of a multi-line pragma, of
-an unterminated comment …) is emitted as pure indentation: its text is dropped.  Known finding
-C15-multiline-pragma. -/
-theorem c15_tokenless_line_dropped (cfg : Config) (st : St) (text : Text) (o : OutLine) (st' : St)
-    (h : stepLine cfg st { text := text, toks := [], inBlockComment := false, hasLineComment := false,
-                           hasPragma := false, hasString := false } = some (o, st')) :
-    o.text = [] ∨ ∃ n, o.text = repeatText (indentUnit cfg) n := by
-  unfold stepLine at h
-  simp only [Bool.false_eq_true, if_false] at h
-  split at h
-  · simp only [Option.some.injEq, Prod.mk.injEq] at h
-    obtain ⟨rfl, _⟩ := h
-    exact Or.inl rfl
-  · split at h
-    · exact absurd h (by simp)
-    · simp only [Option.some.injEq, Prod.mk.injEq] at h
-      obtain ⟨rfl, _⟩ := h
-      right
-      refine ⟨(curIndent cfg st.indent []).1.toNat, ?_⟩
-      simp [emitLine, formatLineTokens, formatLineTokensFrom]
+/-- When the first ':' of a VAR-block line is not a `Colon` token (it lies inside a string or time
+literal) the line gets no colon index, so `align_var_block_colons` never pads inside it. -/
+theorem c15_colon_guard (cfg : Config) (l : LineIn) (inVar : Bool) (cur : Nat)
+    (h : firstColonIsToken l.toks = false) : (emitLine cfg l inVar cur).colon = none := by
+  unfold emitLine
+  simp [h]
 
-/-- The concrete witness: `{attribute 'foo'` / `   bar := 1}` — the second line of the pragma is lost. -/
-theorem c15_pragma_counterexample :
-    formatDocument cfgDefault
-      { lines := [{ lineOf "{attribute 'foo'" [] with hasPragma := true }, lineOf "   bar := 1}" []],
-        crlf := false, endsNl := false } = some (txt "{attribute 'foo'\n") := by decide
-
-/-! ## Clause 1: the alignment pass edits inside a literal -/
-
-/-- `align_var_block_colons` pads at the first ':' of the line even when it is inside a string literal:
-`'a:b',` on a continuation line of a VAR block becomes `'a    :b',`.  Known finding
-C15-var-colon-in-literal. -/
-theorem c15_var_colon_counterexample :
-    (alignVarColons
-      [ { text := txt "    arr: INT;", inVar := true, colon := some 7, skipAlign := false },
-        { text := txt "    'a:b',", inVar := true, colon := findTypeColon (txt "    'a:b',"), skipAlign := true } ]).map
-      (·.text) = [txt "    arr: INT;", txt "    'a :b',"] := by decide
+/-- non-vacuity: the continuation line `'a:b',` of an initialiser, the former witness -/
+example :
+    let l := lineOf "'a:b'," [tk "StringLiteral" .StringLiteral "'a:b'", tk "Comma" .Comma ","]
+    firstColonIsToken l.toks = false ∧ (emitLine cfgDefault l true 2).colon = none ∧
+    firstColonIsToken [tk "Ident" .Ident "arr", tk "Colon" .Colon ":", tk "KwInt" .Kw "INT"] = true := by decide
 
 /-! ## Clause 3: range and on-type edits -/
 
@@ -370,8 +341,7 @@ theorem c15_var_colon_counterexample :
 `a..=b` by the formatted lines `a..=b` and leaves every other line alone — for every source, every
 formatted text and every line range that does not include the last line (LF line ends).
 So the edit re-lays-out only the lines it covers *provided formatted line i is the layout of source
-line i*; that is the case as long as no line was wrapped (the wrapping pass is the only one that changes
-the number of lines) and fails otherwise: `c15_range_edit_counterexample`. -/
+line i*; that is the case as long as no line was wrapped (`c15_range_line_count`: range and on-type formatting do not wrap). -/
 theorem c15_range_edit (src formatted : Text) (a b : Nat) (e : Edit)
     (hcr : containsText src ['\r', '\n'] = false)
     (hfcr : ∀ l ∈ splitOn '\n' formatted, stripCR l = l)
@@ -423,16 +393,23 @@ example : srcLines (applyLineEdit (txt "a\nb\nc") { sl := 1, sc := 0, el := 2, e
     [txt "a", txt "  b", txt "c"] :=
   c15_range_edit (txt "a\nb\nc") (txt "a\n  b\nc") 1 1 _ (by decide) (by decide) (by decide) (by decide) (by decide)
 
-/-- Clause 3 is FALSE of the code: after `wrap_long_lines` split line 0 into three, on-type formatting of
-line 1 (`x := 1;`) returns the formatted line with index 1 — the second piece of line 0 — so applying the
-edit deletes `x := 1;` and duplicates `bbbbbbbbb,`.  Known finding C15-wrap-range-index; replayed
-through `textDocument/onTypeFormatting`. -/
-theorem c15_range_edit_counterexample :
-    onTypeFormat { cfgDefault with maxLen := some 20 } wrapSrc wrapDoc 1 =
-      .edits [{ sl := 1, sc := 0, el := 2, ec := 0, newText := txt "    bbbbbbbbb,\n" }] ∧
-    srcLines (applyLineEdit wrapSrc { sl := 1, sc := 0, el := 2, ec := 0, newText := txt "    bbbbbbbbb,\n" }) =
-      [txt "foo(aaaaaaaa, bbbbbbbbb, ccccccccc);", txt "    bbbbbbbbb,", txt ""] := by
-  decide +kernel
+/-- Clause 3, line correspondence: without wrapping (range and on-type formatting set
+`max_line_length = None` since fix 26b5189, see `rangeFormat` / `onTypeFormat`) the formatted document
+has exactly one line per source line — the per-line loop emits one line per line and the alignment
+passes keep the count — so formatted line i is the layout of source line i and `c15_range_edit` applies. -/
+theorem c15_range_line_count (cfg : Config) (hm : cfg.maxLen = none) (ls : List LineIn) (st : St)
+    (outs : List OutLine) (h : runLines cfg st ls = some outs) :
+    (finalLines cfg outs).length = ls.length := by
+  unfold finalLines
+  rw [hm]
+  simp only [List.length_map]
+  rw [(rel_alignedLines cfg outs).length, runLines_length cfg ls st outs h]
+
+/-- the former witness of C15-wrap-range-index: with `maxLineLength = 20` full formatting wraps line 0,
+on-type formatting of line 1 (`x := 1;`) no longer returns a piece of line 0 — nothing to change -/
+example :
+    onTypeFormat { cfgDefault with maxLen := some 20 } wrapSrc wrapDoc 1 = .edits [] ∧
+    (runLines { cfgDefault with maxLen := none } {} wrapDoc.lines).isSome = true := by decide +kernel
 
 /-- Clause 2 (idempotence) is FALSE of the LSP formatter for the same text: the continuation indent of a
 wrapped line is not reproduced by the second run.  Known finding C15-wrap-not-idempotent (the second
